@@ -201,7 +201,8 @@ C05RespCauses(n, r) ==
       oth == SelectSeq(r.setCookie, LAMBDA ck : ck.name # ("own:" \o r.f))
       old == Req(n).cookie
       sets == Ops(n, "SetAuthorizationState")
-      rems == SelectSeq(Ops(n, "RemoveSession"), LAMBDA x : x.e.sid = old /\ Took(x) /\ Good(x))
+      \* removals of the presented session that took effect (the store's projected state says the session is gone)
+      rems == SelectSeq(Ops(n, "RemoveSession"), LAMBDA x : x.e.sid = old /\ Took(x) /\ Good(x) /\ (x.e.probe.known => ~x.e.probe.ex))
   IN
     (IF Len(oth) > 0 THEN {"cookie-with-foreign-name"} ELSE {})
     \cup (IF \E i \in DOMAIN r.setCookie : ~CookieAttrsOK(r.setCookie[i]) THEN {"cookie-attributes"} ELSE {})
